@@ -4,6 +4,7 @@
 //! with the digests of the other variants' dumps.
 use crate::dbx::*;
 use crate::enc::*;
+use crate::search::{Focus, SearchView, search_event, search_value};
 use crate::with_db;
 use agdb::*;
 use serde_json::{Value, json};
@@ -28,6 +29,10 @@ pub struct Profile {
     pub bad_inputs: bool,
     pub max_elems: usize,
     pub variants: Vec<Kind>,
+    pub searches_per_step: u64,
+    pub focus: Focus,
+    pub search_values: bool,
+    pub cross_type: bool,
 }
 
 impl Profile {
@@ -38,6 +43,13 @@ impl Profile {
             w_insert_values: 10, w_index: 5, w_remove: 8, w_remove_aliases: 3, w_remove_values: 6, w_tx: 6,
             w_maintain: 0, reads_per_step: 1, exotic_values: false, bad_inputs: true, max_elems: 10,
             variants: vec![Kind::Memory],
+            searches_per_step: 0, focus: Focus::Mixed, search_values: false, cross_type: true,
+        };
+        let search = |p: &mut Profile, f: Focus| {
+            p.searches_per_step = 3; p.focus = f; p.search_values = true; p.reads_per_step = 0;
+            p.w_insert_nodes = 14; p.w_insert_edges = 22; p.w_remove = 8; p.w_insert_values = 14; p.w_update_nodes = 4;
+            p.w_update_edges = 4; p.w_index = 0; p.w_tx = 2; p.w_insert_aliases = 3; p.w_remove_aliases = 1; p.w_remove_values = 3;
+            p.max_elems = 9; p.bad_inputs = false;
         };
         match name {
             "graph" => { p.w_insert_nodes = 14; p.w_insert_edges = 18; p.w_remove = 14; p.w_insert_values = 3; p.w_index = 1; p.w_tx = 2; }
@@ -51,6 +63,12 @@ impl Profile {
             "variants" => { p.variants = Kind::all().to_vec(); p.w_maintain = 3; }
             "values" => { p.exotic_values = true; p.w_insert_values = 20; p.w_update_nodes = 8; p.w_remove_values = 8;
                           p.variants = vec![Kind::Memory, Kind::File, Kind::Mapped]; p.w_maintain = 4; p.bad_inputs = false; }
+            "search_trav" => search(&mut p, Focus::Traversal),
+            "search_cond" => search(&mut p, Focus::Conditions),
+            "search_slice" => search(&mut p, Focus::Slicing),
+            "search_path" => search(&mut p, Focus::Path),
+            "search_elem" => search(&mut p, Focus::Elements),
+            "search_mixed" => search(&mut p, Focus::Mixed),
             "elements" => { p.w_remove = 16; p.w_insert_nodes = 14; p.w_insert_edges = 14; p.reads_per_step = 2; }
             _ => {}
         }
@@ -127,6 +145,9 @@ struct Gen<'a> {
 
 impl Gen<'_> {
     fn value(&mut self) -> DbValue {
+        if self.p.search_values {
+            return search_value(self.rng, self.p.cross_type);
+        }
         if self.p.exotic_values && self.rng.chance(3, 4) {
             return exotic_value(self.rng);
         }
@@ -529,6 +550,7 @@ pub fn run(args: &Args) {
     let (mut n_mut, mut n_ok, mut n_fail, mut n_tx, mut n_tx_rb, mut n_reads, mut n_maint, mut n_obs) = (0u64, 0u64, 0u64, 0u64, 0u64, 0u64, 0u64, 0u64);
     let mut distinct = std::collections::HashSet::new();
     let mut aborted_runs = 0u64;
+    let (mut n_search, mut n_search_nontrivial) = (0u64, 0u64);
     for run in first..first + runs {
         let mut rng = Rng::new(seed.wrapping_mul(1_000_003).wrapping_add(run).wrapping_add(vcore::fnv(profile.name.as_bytes())));
         let mut gen_no = 0u64;
@@ -624,6 +646,16 @@ pub fn run(args: &Args) {
                     n_reads += 1;
                     trace.emit(ev);
                 }
+                for _ in 0..profile.searches_per_step {
+                    let sv = SearchView { nodes: &view.nodes, edges: &view.edges, aliases: &view.aliases };
+                    let dbs: Vec<&DbX> = vs.dbs.iter().map(|(_, d, _)| d).collect();
+                    let keys: Vec<DbValue> = KEYS.iter().map(|k| DbValue::String(k.to_string())).collect();
+                    let ev = search_event(&mut rng, &sv, &dbs, &keys, profile.focus, profile.cross_type);
+                    n_reads += 1;
+                    n_search += 1;
+                    if ev["ev"] == "Search" && ev["base"].as_array().map(|a| a.len() > 1).unwrap_or(false) { n_search_nontrivial += 1; }
+                    trace.emit(ev);
+                }
             }
         }
         for (k, db, path) in vs.dbs.drain(..) {
@@ -637,6 +669,6 @@ pub fn run(args: &Args) {
         "profile": profile.name, "first": first, "programs": runs, "mutations": n_mut, "mutations_ok": n_ok, "mutations_failed": n_fail,
         "transactions": n_tx, "transactions_rolled_back": n_tx_rb, "reads": n_reads, "maintenance_ops": n_maint, "observations": n_obs,
         "distinct_mutation_events": distinct.len(), "aborted_runs": aborted_runs, "trace_events": trace.events,
-        "variants": profile.variants.len(),
+        "variants": profile.variants.len(), "searches": n_search, "searches_nontrivial": n_search_nontrivial,
     })).unwrap());
 }
